@@ -42,6 +42,12 @@ func continueTag(string) (func(io.Writer, render.Context) error, error) {
 	}, nil
 }
 
+// cycleCounters is the type of forloop[".cycles"], the cycle positions of one loop execution.
+// It is unexported so that a value bound by the caller under the name forloop (any map the
+// caller can build, with any counters in it) is never mistaken for, and written through as,
+// the renderer's own record.
+type cycleCounters map[string]int
+
 func cycleTag(args string) (func(io.Writer, render.Context) error, error) {
 	stmt, err := expressions.ParseStatement(expressions.CycleStatementSelector, args)
 	if err != nil {
@@ -58,7 +64,7 @@ func cycleTag(args string) (func(io.Writer, render.Context) error, error) {
 		if !ok {
 			return ctx.Errorf("cycle must be within a forloop")
 		}
-		cycleMap, ok := loopRec[".cycles"].(map[string]int)
+		cycleMap, ok := loopRec[".cycles"].(cycleCounters)
 		if !ok {
 			return ctx.Errorf("cycle must be within a forloop")
 		}
@@ -124,7 +130,7 @@ func (loop loopRenderer) render(iter iterable, w io.Writer, ctx render.Context) 
 		ctx.Set(forloopVarName, index)
 		ctx.Set(loop.Variable, forloop)
 	}(ctx.Get(forloopVarName), ctx.Get(loop.Variable))
-	cycleMap := map[string]int{}
+	cycleMap := cycleCounters{}
 loop:
 	for i, l := 0, iter.Len(); i < l; i++ {
 		ctx.Set(loop.Variable, iter.Index(i))
